@@ -288,7 +288,7 @@ fn use_reader(mon: &mut Monitor, r: &mut Rd, stats: &Rc<Stats>, n: u64, ex: &mut
         let ids_k = if light { let mut v = sample_ids(c); v.retain(|k| *k <= 8 || *k >= c.saturating_sub(1)); v } else { sample_ids(c) };
         for k in ids_k {
             mon.call(&nm("sample_offset"), Some(stats), CALL_OPS, n, false, || r.sample_offset(id, k).map_err(|e| e.to_string()));
-            let got = mon.call(&nm("read_sample"), Some(stats), CALL_OPS, n, false, || r.read_sample(id, k).map(|s| s.map(|s| s.bytes.len() as u64).unwrap_or(0)).map_err(|e| e.to_string()));
+            let got = mon.call(&nm("read_sample"), Some(stats), CALL_OPS + n, n, false, || r.read_sample(id, k).map(|s| s.map(|s| s.bytes.len() as u64).unwrap_or(0)).map_err(|e| e.to_string()));
             if let (Some(len), Some(last)) = (got, mon.recs.last_mut()) {
                 last.sample_len = len;
             }
